@@ -8,7 +8,7 @@ import sys, os, re, json, subprocess
 names = sys.argv[1:]
 if names == ['all']:
     names = sorted(d for d in os.listdir('/verif/benign') if os.path.isdir('/verif/benign/' + d))
-ids = ['C%02d' % i for i in range(1, 21)]
+ids = os.environ.get('BENIGN_IDS', '').split() or ['C%02d' % i for i in range(1, 21)]   # BENIGN_IDS="C15 C20" restricts the checks (results then go to alarms_now_partial)
 env = dict(os.environ, MUT_DIR=os.environ.get('MUT_DIR', '/tmp/mutb'))
 bad = 0
 for n in names:
@@ -21,8 +21,9 @@ for n in names:
             m = re.search(rf'\[mutant\] {i} rc=(\d+)', r.stdout)
             alarms[i] = int(m.group(1)) if m else 'not run'
     sigs = sorted(set(re.findall(r'VIOLATION property=(C\d+)[^\n]*signature="([^"]+)"', r.stdout)))
-    meta['alarms_now'] = alarms
-    meta['alarm_signatures_now'] = [list(s) for s in sigs]
+    key = 'alarms_now' if len(ids) == 20 else 'alarms_now_partial'
+    meta[key] = alarms
+    meta[key.replace('alarms', 'alarm_signatures')] = [list(s) for s in sigs]
     json.dump(meta, open(d + '/meta.json', 'w'), indent=1)
     correct = {k for k, v in (meta.get('judgement') or {}).items() if str(v).startswith('CORRECT')}
     unexpected = {k: v for k, v in alarms.items() if k not in correct}
